@@ -55,6 +55,10 @@ PropC02(e) == e.ev \in {"rt", "enc"} =>
    /\ HasVars(e.msg.item) \/ ValuesOK(e.msg.item)
    /\ e.bytes = ExpectedBytes(e.msg)
 
+\* TLC -> Go replay: the case was built from the specification's message `want`; the real object must be
+\* that message and its bytes must be the bytes the specification computed for it
+PropExpect(e) == "want" \in DOMAIN e => RecOfData(e.msg) = e.want /\ e.bytes = e.expect
+
 \* ------------------------------------------------------------------ C03: accepted iff well-formed, decoded exactly
 PropC03(e) == e.ev \in {"rt", "dec"} =>
    LET r == DecMsg(e.bytes) IN
@@ -76,6 +80,7 @@ AgreeDecoder(e) == e.ev \in {"rt", "dec"} =>
    /\ e.ok = (r.st = "accept")
    /\ e.hdrs = r.log
 
+InvExpect == l > 0 => PropExpect(E)
 InvC01 == l > 0 => PropC01(E)
 InvC02 == l > 0 => PropC02(E)
 InvC03 == l > 0 => PropC03(E)
